@@ -112,14 +112,16 @@ Proof.
       eapply compare_path_asym; eauto. }
   (* the link target is already there *)
   assert (Hlink : forall bb, In (b, bb) B -> is_hardlink b = true ->
-            exists t, alookup (st_linkname b) D = Some t /\ st_is_dir (de_stat t) = false /\ de_bytes t = bb /\
+            exists t, alookup (st_linkname b) D = Some t /\ st_is_dir (de_stat t) = false /\
+                      (AbsDest.is_reg b = true -> de_bytes t = bb) /\
                       (* the target was added with the stat as sent, a canonical link entry carries the same metadata *)
                       link_stat (de_stat t) b = b).
   { intros bb Hin Hl. destruct (HlB b bb Hin Hl) as (st & bt & Ht & Ep & Hlt & Hr & _ & Hmeta & Eb).
     assert (Hst : In st done) by (apply Hdone; [apply (in_map fst _ _ Ht)|exact Hlt]).
     destruct (mi_a _ _ Hinv st bt Ht Hst) as (t & Hxt & Es & Hbt).
-    exists t. rewrite <- Ep. split; auto. split; [rewrite Es; apply is_reg_not_dir; auto|].
-    split; [rewrite (Hbt Hr); auto|]. rewrite Es. apply link_stat_honest. exact Hmeta. }
+    exists t. rewrite <- Ep. split; auto. split; [rewrite Es; apply is_node_not_dir; auto|].
+    split; [|rewrite Es; apply link_stat_honest; exact Hmeta].
+    intros Hrb. rewrite Hbt; auto. rewrite (is_reg_cong st b); auto. apply Hmeta. }
   destruct (B_efind B HsB b Hb) as (bb & Hbb & _).
   destruct (apply_map_add_ok src D n (st_path b) b) as (D' & n' & Ea).
   { intros Hl. destruct (Hlink bb Hbb Hl) as (t & Ht & Htd & _). eauto. }
@@ -144,12 +146,13 @@ Proof.
     + destruct (apply_map_at src _ _ _ _ _ _ _ Hk Ea) as (e & He & Es & Hc). exists e. split; auto. split.
       { destruct (is_hardlink b) eqn:Hhl; [|auto].
         destruct Hc as [(Hdir & _)|[(_ & _ & t & Ht & _ & _ & _ & Est)|(Hl & _)]]; [| |congruence].
-        - unfold is_hardlink, AbsDest.is_reg in Hhl. rewrite Hdir in Hhl. discriminate.
+        - unfold is_hardlink, is_node in Hhl. rewrite Hdir in Hhl. discriminate.
         - destruct (Hlink bb0 Hin0 eq_refl) as (t' & Ht' & _ & _ & Ehon). rewrite Ht in Ht'. inversion Ht'; subst t'.
           rewrite Est. exact Ehon. }
       intros Hreg. destruct Hc as [(Hdir & _)|[(Hl & _ & t & Ht & _ & _ & Eb & _)|(Hl & _ & _ & Eb & _)]].
       * apply is_reg_not_dir in Hreg. congruence.
-      * destruct (Hlink bb0 Hin0 Hl) as (t' & Ht' & _ & Ebt & _). rewrite Ht in Ht'. inversion Ht'; subst. congruence.
+      * destruct (Hlink bb0 Hin0 Hl) as (t' & Ht' & _ & Ebt & _). rewrite Ht in Ht'. inversion Ht'; subst.
+        rewrite Eb. apply Ebt; auto.
       * rewrite Eb, (not_hardlink_wants _ Hreg Hl). apply (src_at B HsB); auto.
   - (* covered *)
     intros p Hn (b' & Hb' & Hd' & Hab'). destruct (Hnotin p Hn) as [Hn1 Hn2].
@@ -227,8 +230,9 @@ Proof.
     exists b. split; [apply (in_map fst _ _ Hb)|auto].
 Qed.
 
-(* every regular source entry shows the inode class of the first name of its link group *)
-Lemma merge_rep s c x : In (s, c) B -> AbsDest.is_reg s = true -> alookup (st_path s) R = Some x ->
+(* every source entry that is neither a directory nor a symbolic link shows the inode class of
+   the first name of its link group *)
+Lemma merge_rep s c x : In (s, c) B -> is_node s = true -> alookup (st_path s) R = Some x ->
   exists t, alookup (group_rep s) R = Some t /\ de_ino t = de_ino x /\ is_hardlink (de_stat t) = false.
 Proof.
   intros Hin Hreg Hx. destruct merge_final as (nR & E & Hinv & _). destruct HwB as [HsB HcB].
@@ -303,7 +307,7 @@ Proof.
       destruct (alookup (st_path s1) R) as [x1|] eqn:X1; [|discriminate].
       destruct (alookup (st_path s2) R) as [x2|] eqn:X2; [|discriminate].
       simpl in F1, F2. inversion F1; inversion F2; subst d1 d2. simpl o_ino.
-      apply conv_reg_abs_reg in R1, R2.
+      apply conv_linkable_node in R1, R2.
       destruct (merge_rep s1 c1 x1 H1 R1 X1) as (t1 & T1 & I1 & L1).
       destruct (merge_rep s2 c2 x2 H2 R2 X2) as (t2 & T2 & I2 & L2).
       assert (Hinj : nonlink_inj R).
